@@ -254,6 +254,16 @@ reg(
       bounds="ASCII content (UTF-8 validation and the copy are stubbed: length logic only)", functions=["rawdb::RegionMetadata::from_bytes"],
       stubs=[FMT, "<[u8]>::to_vec -> empty vec and String::from_utf8 -> Ok (content irrelevant: ASCII by construction)"]),
 )
+for (n, l1, l2) in [("c09_cached_race_1_3", 1, 3), ("c09_cached_race_0_2", 0, 2), ("c09_cached_race_2_2", 2, 2)]:
+    reg(H(n, "vecdb", "C09", mem=6, timeout=600,
+          desc=f"CachedVec over a source whose published length grows from {l1} to {l2} exactly between the reader's length snapshot and its cache store (budget hook plays the writer): the first reader gets a prefix of the writer's sequence; every later reader finds every index below the length it observes readable and equal to the source",
+          bounds="source lengths concrete (listed), element values and probe indices symbolic; single reader at a time, sequentially consistent",
+          functions=["vecdb::CachedVec::{materialize,try_cached,collect_one_at,len}"], stubs=[WCAP]))
+for (n, a, b) in [("c08_cached_agree_3_1", 3, 1), ("c08_cached_agree_2_2", 2, 2), ("c08_cached_agree_0_0", 0, 0)]:
+    reg(H(n, "vecdb", "C08", mem=6, timeout=600,
+          desc=f"CachedVec (source length {a}, then shrunk to {b}): range folds and point reads equal the source restricted to the range; cached contents never outlive a shrunken source",
+          bounds="source lengths concrete (listed), values, ranges (incl. reversed / usize::MAX) and probe indices symbolic",
+          functions=["vecdb::CachedVec as ReadableVec"], stubs=[WCAP]))
 
 
 def select(prop, tier, seed=0):
